@@ -385,7 +385,7 @@ def job_ragged(shape, delimiter=None, nvals=2):
         A.observe('status', st if st == 'ok' else type(res).__name__)
         A.require(st == 'ok' or isinstance(res, ValueError), 'load_ragged_time_series:only-ValueError', got=type(res).__name__)
         first = inp['lead'] + inp['t']
-        if bool(first[0] == '#'):
+        if len(first) and bool(first[0] == '#'):
             A.require(st == 'ok' and len(res[0]) == 0 and len(res[1]) == 0, 'load_ragged_time_series:comment-line-vanishes')
             return
 
@@ -611,6 +611,8 @@ def jobs(tier):
     js.append(job_ragged((1, 2, 1, 1, 1, 2, 1)))
     js.append(job_ragged((0, 2, 0, 0, 0, 0, 1), nvals=0))
     js.append(job_ragged((0, 1, 1, 2, 1, 1, 0), ','))
+    js.append(job_ragged((0, 1, 1, 0, 1, 1, 0), ','))         # an empty field inside the row: not a number => ValueError
+    js.append(job_ragged((2, 0, 0, 0, 0, 0, 1), nvals=0))     # a blank (whitespace-only) row: no time stamp => ValueError
     if not q:
         js.append(job_ragged((1, 2, 2, 2, 1, 2, 1)))
         js.append(job_ragged((0, 2, 1, 2, 1, 1, 1), '\t'))
